@@ -107,6 +107,8 @@ def siter(v, interp=None):
         return v.shape[0], (lambda i: v.view_axis0(i) if v.ndim > 1 else v.at((i,)))
     if isinstance(v, RotV) and v.n is not None and is_sym(v.n):
         return v.n, (lambda i: v[i])
+    if hasattr(v, "_siter"):
+        return v._siter()
     from . import symex as X
     if isinstance(v, X.Obj) and isinstance(v.cls, X.RepoClass) and V.PATH[0] is not None:
         # a repo container: what its __iter__ returns (iter(...) of a symbolic-length sequence stays that sequence)
